@@ -68,7 +68,8 @@ Inductive op :=
 (* an Init call that FAILS for a reason outside the seed ids: the add callback got a value of the
    wrong type, the init callback returned an error, or a seed could not be encoded (setValue
    error) after [nset] other seeds were already set inside the transaction.  The transaction is
-   aborted: explicit outcome "error, nothing changed".  (Empty / duplicate seed ids are decided
+   aborted: explicit outcome "error, nothing changed".  The same outcome stands for an Init whose
+   transaction exceeds BadgerDB's per-transaction limit (ErrTxnTooBig, see [limit_op]).  (Empty / duplicate seed ids are decided
    by [valid_seeds] on [Init] itself.)  With the marker present Init returns nil before any of this. *)
 | InitErr (nset : nat).
 
@@ -155,6 +156,25 @@ Fixpoint compile (c : content) (ops : list op) : list mstep :=
   match ops with
   | [] => []
   | o :: r => let (ms, c') := compile_op c o in ms ++ compile c' r
+  end.
+
+(* ---- BadgerDB's per-transaction limit (TRUSTED, measured by the harness on the real database):
+   a read-write transaction holding [lim] or more writes fails with ErrTxnTooBig at the write that
+   reaches the limit (lim = DB.MaxBatchCount() - 1; 0 stands for "never reached").  Init then
+   fails after lim - 1 seeds were set and leaves nothing. ---- *)
+Definition init_too_big (lim : nat) (c : content) (s : list (id * value)) : bool :=
+  negb (Nat.eqb lim 0) && negb (isSomeV (get KMark c)) && valid_seeds s
+  && Nat.leb lim (S (length (created_seeds c s))).
+Definition limit_op (lim : nat) (c : content) (o : op) : op :=
+  match o with
+  | Init s => if init_too_big lim c s then InitErr (lim - 1) else o
+  | _ => o
+  end.
+(* the workload as the limited database executes it *)
+Fixpoint limit_ops (lim : nat) (c : content) (ops : list op) : list op :=
+  match ops with
+  | [] => []
+  | o :: r => let o' := limit_op lim c o in o' :: limit_ops lim (snd (compile_op c o')) r
   end.
 
 (* ---- updateIndex: the write-set of one index task (does not read the database) ---- *)
@@ -267,6 +287,13 @@ Definition rebuild_indexes (g : cfg) (c : content) : rb_result :=
   if is_nil (idxs g) then RbOk c
   else let d := drop_indexes g c in
        if scan_fails g d then RbErr d else RbOk (apply_ws d (rebuild_ws g d)).
+(* with the per-transaction limit: the single transaction that writes the new entries fails with
+   ErrTxnTooBig after the old entries were dropped; otherwise as above *)
+Definition rebuild_indexes_lim (lim : nat) (g : cfg) (c : content) : rb_result :=
+  let d := drop_indexes g c in
+  if negb (is_nil (idxs g)) && negb (Nat.eqb lim 0) && negb (scan_fails g d)
+     && Nat.leb lim (length (rebuild_ws g d))
+  then RbErr d else rebuild_indexes g c.
 (* before the fix in /repo the marker was unmarshalled as a value when the prefix is empty:
    json.Unmarshal of empty data fails after the indexes were dropped *)
 Definition rebuild_indexes_v0 (g : cfg) (c : content) : rb_result :=
